@@ -23,10 +23,10 @@ for cpuname, (unit, maxlen, unw, tier, tables, two) in CPUS.items():
     defs += tables
     if two:
         defs.append("TWOSAFETY")
-    GROUPS.append(Group(name="C08/disasm_%s" % cpuname, unity="C08/u_dis.cpp", entry="h_dis", c_sources=([] if "STRINGS_ABSTRACT" in tables else ["common/st_fmt.c"]),
+    GROUPS.append(Group(name="C08/disasm_%s" % cpuname, unity="C08/u_dis.cpp", entry="h_dis", c_sources=(["common/st_hash.c"] if "STRINGS_HASH" in tables else [] if "STRINGS_ABSTRACT" in tables else ["common/st_fmt.c"]),
                         functions=[("disasm_%s" % cpu, "disasm/%s.cpp" % cpu, "harness; table scans closed by unwinding %d with unwinding assertions" % unw),
                                    ("table_%s[]" % cpu, "table/%s.cpp" % cpu, "data")],
-                        defines=defs, unwind=unw, checks=CH, timeout=(2400 if two else 900), mem_gb=(30 if two else 10), tier=tier))
+                        defines=defs, unwind=unw, checks=CH, timeout=(2400 if two else 900), mem_gb=(30 if two else 10), tier=tier, extra_cbmc=(["--object-bits", "14"] if two else [])))
 GROUPS.append(Group(name="C08/UtilContext.disasm.pages[bounded]", unity="C19/u_util.cpp", entry="h_disasm_pages",
                     functions=[("UtilContext::disasm(uint32_t, uint32_t)", "core/UtilContext.cpp", "harness, bounded")], defines=["WIDTH=1"],
                     unwind=8, checks=CH, timeout=900, bounded="address ranges touching at most 4 pages of 64 KiB; which pages are in use and their used sub-ranges symbolic"))
